@@ -26,7 +26,8 @@ static void set_env(int e) {
 #endif
 }
 
-static Alphabet make_alphabet(int vm_flags, bool th) {
+static Alphabet make_alphabet(int vm_flags, bool big) {
+	const bool th = big;
 	Alphabet A; A.vm_flags = vm_flags;
 	A.keys = { "", "test key 000" }; A.inputs = { "", "This is a test" };
 	if (th) { std::string base = alph::pattern(60, 2); A.keys.push_back(base); A.keys.push_back(base + "Z"); A.inputs.push_back(alph::pattern(200, 1)); }
@@ -67,19 +68,23 @@ int main(int argc, char** argv) {
 #else
 	const int depth = atoi(args.get("depth", th ? "6" : "5").c_str());
 #endif
-	struct Job { int flags, env, depth; bool dedup; int root; };
+	struct Job { int flags, env, depth; bool dedup; int root; bool big; };
 	std::vector<Job> jobs;
 	if (th) {
-		for (int f : flagsets) for (int e = 0; e < nenv; ++e) { jobs.push_back({ f, e, depth, true, 0 }); jobs.push_back({ f, e, depth, true, 1 }); }
-		for (int f : flagsets) jobs.push_back({ f, 0, std::min(depth, 3), false, 0 });
+		// (A) small alphabets (2 keys, 2 inputs), full depth: all flag sets x two allocator answers (reuse-large-blocks, fresh), second root under the first
+		for (int f : flagsets) { for (int e : { 0, 2 }) if (e < nenv) jobs.push_back({ f, e, depth, true, 0, false }); jobs.push_back({ f, 0, depth, true, 1, false }); }
+		// (B) large alphabets (4 keys incl. a pair sharing 60 bytes, 3 inputs), one level less, both roots; remaining allocator answers
+		for (int f : flagsets) { jobs.push_back({ f, 0, depth - 1, true, 0, true }); jobs.push_back({ f, 0, depth - 1, true, 1, true }); }
+		for (int f : flagsets) for (int e : { 1, 3, 4, 5, 6, 7 }) if (e < nenv) jobs.push_back({ f, e, depth - 1, true, 0, false });
+		for (int f : flagsets) jobs.push_back({ f, 0, std::min(depth, 3), false, 0, false });
 	} else {   // quick: at most 16 explorations (one wave on 16 cores)
-		for (int f : flagsets) { jobs.push_back({ f, 0, depth, true, 0 }); if (nenv > 1) jobs.push_back({ f, 2, depth, true, 0 }); jobs.push_back({ f, 0, depth, true, 1 }); }   // reuse-large-blocks, fresh; second root: two live caches with different keys
-		if (nenv > 1) jobs.push_back({ flagsets[0], 1, depth, true, 0 });                                                                  // reuse-all on the first flag set
-		for (size_t i = 0; i < 2 && i < flagsets.size(); ++i) jobs.push_back({ flagsets[i], 0, std::min(depth, 3), false, 0 });   // no state merging, depth 3: must give the same verdict
+		for (int f : flagsets) { jobs.push_back({ f, 0, depth, true, 0, false }); if (nenv > 1) jobs.push_back({ f, 2, depth, true, 0, false }); jobs.push_back({ f, 0, depth, true, 1, false }); }   // reuse-large-blocks, fresh; second root: two live caches with different keys
+		if (nenv > 1) jobs.push_back({ flagsets[0], 1, depth, true, 0, false });                                                                  // reuse-all on the first flag set
+		for (size_t i = 0; i < 2 && i < flagsets.size(); ++i) jobs.push_back({ flagsets[i], 0, std::min(depth, 3), false, 0, false });   // no state merging, depth 3: must give the same verdict
 	}
 	vf::Result total = vf::run_shards(args, (int)jobs.size(), [&](int shard) {
 		vf::Result R; const Job& j = jobs[shard];
-		Alphabet A = make_alphabet(j.flags, th); set_env(j.env); dedup = j.dedup;
+		Alphabet A = make_alphabet(j.flags, j.big); set_env(j.env); dedup = j.dedup;
 		explore_init();   // table private to this exploration and its descendants
 		W.A = &A; compute_expected(W); OPS = W.alphabet_ops();
 		for (auto& o : setup_ops(A, j.root)) { if (!W.enabled(o) || !W.apply(o)) { vf::Violation v; v.key = "c03:setup"; v.what = "setup operation " + op_str(o) + " failed: " + W.problem; v.replay = vf::Json::obj(); R.viol.push_back(v); return R; } H.push_back(o); }
@@ -93,14 +98,14 @@ int main(int argc, char** argv) {
 		R.n["states"] = SH->states; R.n["transitions"] = SH->transitions; R.n["hashes_checked"] = SH->hashes; R.n["merged_on_digest"] = SH->dedup_hits; R.n["explorations"] = 1;
 		R.mx["history_length"] = SH->max_depth_reached;
 		if (!j.dedup) { R.n["states_unmerged_runs"] = SH->states; R.n["states"] = 0; R.n["transitions_unmerged_runs"] = SH->transitions; R.n["transitions"] = 0; }
-		R.tags.insert(cfg + "|" + ENVS[j.env].name + (j.root ? "|root2" : "") + (j.dedup ? "" : "|no-merge") + "|depth " + std::to_string(j.depth) + "|states " + std::to_string(SH->states));
+		R.tags.insert(cfg + "|" + ENVS[j.env].name + (j.root ? "|root2" : "") + (j.big ? "|large alphabet" : "") + (j.dedup ? "" : "|no-merge") + "|depth " + std::to_string(j.depth) + "|states " + std::to_string(SH->states));
 		for (uint64_t i = 0; i < std::min<uint64_t>(SH->nviol, 8); ++i) {
 			auto& sv = SH->viol[i]; std::vector<Op> h; for (int k = 0; k < sv.hlen; ++k) h.push_back(Op{ (uint8_t)(sv.h[k] & 255), (uint8_t)((sv.h[k] >> 8) & 255), (uint8_t)((sv.h[k] >> 16) & 255) });
 			vf::Violation v; const Op& last = h.back();
 			v.key = std::string("c03:") + OPNAME[last.code] + ":" + cfg + ":" + (sv.signal ? "crash" : "digest");
 			std::string hs; for (auto& o : h) hs += op_str(o) + " ";
 			v.what = cfg + " [" + ENVS[j.env].name + "] history: " + hs + "=> " + sv.what;
-			v.replay = vf::Json::obj().set("vm_flags", j.flags).set("cfg", cfg).set("env", j.env).set("env_name", ENVS[j.env].name).set("thorough", th).set("history", hist_json(h)).set("history_raw", hist_raw(h));
+			v.replay = vf::Json::obj().set("vm_flags", j.flags).set("cfg", cfg).set("env", j.env).set("env_name", ENVS[j.env].name).set("thorough", j.big).set("history", hist_json(h)).set("history_raw", hist_raw(h));
 			R.viol.push_back(v);
 		}
 		if (shard == 0) { std::vector<Op> s = setup_ops(A); s.push_back({ HASH, 1, 0 }); s.push_back({ INIT_CACHE, 0, 0 }); s.push_back({ SET_CACHE, 0, 0 }); s.push_back({ HASH, 1, 0 }); R.sample(vf::Json::obj().set("cfg", cfg).set("env", ENVS[j.env].name).set("history", hist_json(s)), 1); }
